@@ -21,7 +21,7 @@ def rand_box(rnd, d, finite=False):
     return lo, hi
 
 
-def bounded_target(rnd, d):
+def bounded_target(rnd, d, force=None):
     """(distribution, lower, upper, description) with bounds of one of the four flavours"""
     _, S, MM, D = _hm()
     lo, hi = rand_box(rnd, d)
@@ -31,7 +31,11 @@ def bounded_target(rnd, d):
         hi = None
     flavour = rnd.choice(["normal-own", "uniform", "bayes-inherited", "composite-blocks", "composite-own", "laplace-own",
                           "bayes-own", "bayes-own-then-add", "bayes-update-then-add",
-                          "bayes-over-composite", "composite-nested", "bayes-own-lists", "composite-own-lists"])
+                          "bayes-over-composite", "composite-nested", "bayes-own-lists", "composite-own-lists",
+                          "normal-full-own", "linear-own"])
+
+    if force is not None:
+        flavour = force
 
     def blocks(a0, b0):
         return D.CompositeDistribution([D.Normal(mu[i:i + 1].copy(), var[i:i + 1].copy(), lower_bounds=None if lo is None else lo[i:i + 1].copy(),
@@ -41,6 +45,16 @@ def bounded_target(rnd, d):
     var = np.array([[rnd.choice([0.5, 1.0, 2.0])] for _ in range(d)])
     if flavour == "normal-own":
         dist = D.Normal(mu.copy(), var.copy(), lower_bounds=lo, upper_bounds=hi)
+    elif flavour == "normal-full-own":
+        # correlated: the quadratic form mixes the coordinates (infinite coordinates of opposite sign give NaN, not +inf)
+        cov = np.diag(var.ravel())
+        for i in range(d - 1):
+            cov[i, i + 1] = cov[i + 1, i] = 0.4 * math.sqrt(cov[i, i] * cov[i + 1, i + 1])
+        dist = D.Normal(mu.copy(), cov, lower_bounds=lo, upper_bounds=hi)
+    elif flavour == "linear-own":
+        G = np.array([[rnd.choice([0.0, 1.0, rnd.gauss(0, 1)]) for _ in range(d)] for _ in range(d + 1)])
+        dist = D.LinearMatrix(G, G @ mu + 0.1, float(var[0, 0]), dtype=np.float64)
+        dist.update_bounds(None if lo is None else lo.copy(), None if hi is None else hi.copy())
     elif flavour == "laplace-own":
         dist = D.Laplace(mu.copy(), np.sqrt(var), lower_bounds=lo, upper_bounds=hi)
     elif flavour == "uniform":
@@ -302,15 +316,25 @@ def run(tier, seed):
     from hmclab.Samples import Samples
 
     with scratch() as tmp:
+        # directed: targets whose unbounded part turns infinite coordinates into NaN (correlated Normal, LinearMatrix), RWMH, steps that overflow
+        sweep = [(fl, st_) for fl in ("normal-full-own", "linear-own", "bayes-over-composite") for st_ in (1e200, 1.7e308)]
+        if not thorough:
+            sweep = rnd.sample(sweep, 4)
         for ci in range(160 if thorough else 45):
             d = rnd.choice([1, 2, 3])
-            dist, base, lo, hi, mu, var, desc = bounded_target(rnd, d)
+            forced = sweep[ci] if ci < len(sweep) else None
+            if forced:
+                d = rnd.choice([2, 3])
+            dist, base, lo, hi, mu, var, desc = bounded_target(rnd, d, force=forced[0] if forced else None)
             if lo is None and hi is None:
                 continue
             q0 = np.array([[(-0.4 if lo is None or math.isinf(lo[i, 0]) else lo[i, 0]) * 0.5 + (0.4 if hi is None or math.isinf(hi[i, 0]) else hi[i, 0]) * 0.5]
                            for i in range(d)])
             kind = rnd.choice(["HMC", "HMC", "RWMH"])
             step = rnd.choice([1e-12, 1e-3, 0.1, 1.0, 10.0, 1e3, 1e30, 1e154, 1e200, 1.7e308])
+            if forced:
+                kind, step = "RWMH", forced[1]
+                sc.count("overflowing RWMH step on a correlated target")
             P = rnd.choice([20, 50])
             kw = dict(stepsize=step)
             mdesc = None
